@@ -20,6 +20,7 @@ package ucfg
 import (
 	"fmt"
 	"os"
+	"reflect"
 	"strings"
 
 	"github.com/elastic/go-ucfg/parse"
@@ -55,6 +56,12 @@ type options struct {
 	parsed valueCache
 
 	activeFields *fieldSet
+
+	// references whose value is being unpacked into a target of some type:
+	// reaching one of them again for the same type below itself is a cycle
+	// (the target type may be recursive, so the types alone do not end the
+	// descent)
+	unpacking map[unpackingRef]struct{}
 
 	ignoreCommas bool
 }
@@ -270,6 +277,11 @@ var VarExp Option = doVarExp
 
 func doVarExp(o *options) { o.varexp = true }
 
+type unpackingRef struct {
+	ref *cfgDynamic
+	typ reflect.Type
+}
+
 func makeOptions(opts []Option) *options {
 	o := options{
 		tag:          "config",
@@ -277,6 +289,7 @@ func makeOptions(opts []Option) *options {
 		pathSep:      "", // no separator by default
 		parsed:       map[string]spliceValue{},
 		activeFields: newFieldSet(nil),
+		unpacking:    map[unpackingRef]struct{}{},
 		maxIdx:       defaultMaxIdx,
 	}
 	for _, opt := range opts {
